@@ -183,7 +183,12 @@ func ccBuildDep(d ccDep) *apps.Deployment {
 	case "this":
 		o.OwnerReferences = []metav1.OwnerReference{{APIVersion: v1beta1.GroupVersion.String(), Kind: "BatchRelease", Name: "br", UID: ccBRUID, Controller: &yes, BlockOwnerDeletion: &yes}}
 	case "other":
-		o.OwnerReferences = []metav1.OwnerReference{{APIVersion: v1beta1.GroupVersion.String(), Kind: "BatchRelease", Name: "zz", UID: "other-uid", Controller: &yes, BlockOwnerDeletion: &yes}}
+		// another BatchRelease — for odd ids an earlier incarnation of this one: same name, other uid
+		nm := "zz"
+		if d.Name%2 == 1 {
+			nm = "br"
+		}
+		o.OwnerReferences = []metav1.OwnerReference{{APIVersion: v1beta1.GroupVersion.String(), Kind: "BatchRelease", Name: nm, UID: "other-uid", Controller: &yes, BlockOwnerDeletion: &yes}}
 	case "thisNonCtrl":
 		o.OwnerReferences = []metav1.OwnerReference{{APIVersion: v1beta1.GroupVersion.String(), Kind: "BatchRelease", Name: "br", UID: ccBRUID, Controller: &no}}
 	}
